@@ -489,6 +489,12 @@ def impl_pack(t, v):
         err = ('raise-literal', f'{type(e).__name__}: {e}'[:200])
         return err, err
     try:
+        # the same object is first packed the way big_map keys are hashed (legacy layout) and then canonically:
+        # pack() must not remember anything from an earlier call with another layout
+        try:
+            obj.pack(legacy=True)
+        except Exception:
+            pass
         a = obj.pack()
     except Exception as e:
         a = ('raise', f'{type(e).__name__}: {e}'[:200])
